@@ -106,6 +106,7 @@ Proof.
   pose proof exit_5; pose proof exit_6; pose proof exit_7; pose proof exit_8; pose proof exit_9;
   pose proof exit_10. exact I.
 Qed.
+Print Assumptions C01_all_exits_proved.
 
 (* orientation vectors: position = radius * U, velocity = rdotk * U + rfdotk * V *)
 Theorem C01_state : forall radius theta eqinc ascn rdk rfdk,
